@@ -1093,6 +1093,17 @@ impl DiagnosticList {
         })
     }
 
+    /// Returns true if the list contains a "too much recursion" diagnostic.
+    pub(crate) fn has_recursion_error(&self) -> bool {
+        self.diagnostics_data.iter().any(|data| {
+            matches!(
+                data.details,
+                Details::RecursionLimitError
+                    | Details::CompilerDiagnostic(diagnostics::DiagnosticData::RecursionError {})
+            )
+        })
+    }
+
     /// Concatenate an `other` list of diagnostics into `self`, and sort them together.
     pub fn merge(&mut self, other: Self) {
         if !Arc::ptr_eq(&self.sources, &other.sources) {
